@@ -254,11 +254,11 @@ func (g *gen) behC06() M {
 		case 3, 4:
 			m = M{"t": "B", "portal": g.name(), "stmt": g.name(), "pfmt": []any{}, "params": []any{}, "rfmt": []any{}}
 		case 5:
-			m = M{"t": "D", "kind": g.pick("S", "P", "S", "P", "x"), "name": g.name()}
+			m = M{"t": "D", "kind": g.pick("S", "P", "S", "P", "x", "z", "hi"), "name": g.name()}
 		case 6, 7:
 			m = M{"t": "E", "portal": g.name(), "max": 0}
 		case 8:
-			m = M{"t": "C", "kind": g.pick("S", "P"), "name": g.name()}
+			m = M{"t": "C", "kind": g.pick("S", "P", "S", "P", "z", "x"), "name": g.name()}
 		case 9:
 			m = M{"t": "H"}
 		case 10, 11:
@@ -955,6 +955,10 @@ func (g *gen) scnC14() M {
 	case 1:
 		if cells > 0 {
 			corrupt = M{"kind": "trunc", "at": g.rng.Intn(cells), "mid": g.chance(0.5)}
+		}
+	case 2:
+		if nrows > 0 {
+			corrupt = M{"kind": "len", "row": 1 + g.rng.Intn(nrows), "col": 1 + g.rng.Intn(ncols)}
 		}
 	}
 	bytecuts := []any{}
